@@ -4,13 +4,21 @@ from __future__ import annotations
 
 import ast
 
-from ..core import AnalysisError, Check, Scope, dotted, norm, strip_docstring, walk_no_nested
+from ..core import MEMO_DECORATORS, AnalysisError, Check, Scope, classify_memo_key, dotted, memo_tables, norm, strip_docstring, walk_no_nested
 from ..variants import Variant
 from .c06 import call_site_visibility
 
 MOD = "meta/codegen_mxlpy.py"
 GEN = "generate_mxlpy_code_from_symbolic_repr"
 NONUNIQUE = ("fn_name", "__name__", ".stem", ".lower()")
+
+
+def sc_if(fn: ast.AST, node: ast.AST) -> ast.AST:
+    """The innermost `if` statement enclosing node (for messages)."""
+    for p, f, c in Scope(fn).ancestors(node):
+        if isinstance(p, ast.If):
+            return p.test
+    return node
 
 
 def template_text(js: ast.JoinedStr) -> str:
@@ -33,12 +41,14 @@ class C11(Check):
         "K1": "injective definition table: every store into the table of emitted function definitions is guarded by a collision test "
               "(same definition or renamed), or keyed by something that depends on all enclosing component keys; a key that depends only on "
               "the function's __name__ is non-injective; the emitted builder call refers to the name actually registered",
+        "K5": "no non-injective memoisation on the translation path: a module-level table or cache in the translator / generator that "
+              "is keyed by a function's name, qualified name or module (instead of the function object) makes distinct functions share one entry",
         "K2": "template <-> API agreement: every builder / constructor call in the emitted text uses only keyword names that the real "
               "signature in model.py / types.py has, and the emitted header imports every constructor the templates use",
         "K3": "an untranslatable function makes generation raise",
         "K4": "all four component kinds (variables, parameters, derived quantities, reactions) are translated and emitted, unfiltered",
     }
-    floors = {"K1": 5, "K2": 6, "K3": 1, "K4": 8}
+    floors = {"K1": 7, "K2": 6, "K3": 1, "K4": 8, "K5": 2}
     decided = [
         "two different functions can never be emitted under one name; a component always refers to its own definition",
         "the generated source calls the builder API with keywords that exist; its header imports what it uses",
@@ -83,6 +93,41 @@ class C11(Check):
                               f"definitions are stored under `{src}` without a collision test: the key depends only on the function's name, so two "
                               "different functions that share a name overwrite each other and components are rebuilt with the wrong body",
                               witness="derived a = two(x) [2*x] and b = two(x) [3*x, another function also named `two`]: the generated model computes a = 3*x")
+        # K1b: the equivalence predicate of the registrar accepts only through the positional comparison
+        for r in sorted(registrars):
+            rf = mod.func(r)
+            preds = [f for f in walk_no_nested(rf) if isinstance(f, ast.FunctionDef)]
+            for pf in preds:
+                rets = [x for x in ast.walk(pf) if isinstance(x, ast.Return) and x.value is not None]
+                early = [x for x in rets if isinstance(x.value, ast.Constant) and x.value.value is True]
+                final = [x for x in rets if not isinstance(x.value, ast.Constant)]
+                positional = final and all(("xreplace" in norm(pf) or "subs(" in norm(pf)) and isinstance(x.value, (ast.Compare, ast.Call)) for x in final)
+                if early:
+                    self.violated("K1", MOD, f"{r}.{pf.name}", "equivalence-only-positional", early[0],
+                                  f"`{norm(sc_if(pf, early[0]))[:70]}` accepts two definitions as the same function without comparing them argument position by argument position",
+                                  witness="rate(s,k)=s/k used with ['s','k'] and another rate(k,s)=s/k used with ['k','s']: one def is emitted and the first component computes k/s")
+                elif positional:
+                    self.holds("K1", MOD, f"{r}.{pf.name}", "equivalence-only-positional", final[0], "definitions are equal only if they agree after renaming arguments by position")
+                else:
+                    self.undecided_ob("K1", MOD, f"{r}.{pf.name}", "equivalence-only-positional", pf, "equivalence predicate of the registrar not recognised")
+        # K1c: one table: every registration and the final emission use the same dict object
+        emit = [g for g in ast.walk(gen) if isinstance(g, (ast.GeneratorExp, ast.ListComp)) and "sympy_to_python_fn" in norm(g)]
+        emitted_src = norm(emit[0].generators[0].iter) if emit else "?"
+        passed = set()
+        for fname, fn in mod.functions.items():
+            if "." in fname:
+                continue
+            for c in walk_no_nested(fn):
+                if isinstance(c, ast.Call) and (norm(c.func) in registrars or norm(c.func) in ("_codegen_variable", "_codegen_parameter")):
+                    kw = {k.arg: norm(k.value) for k in c.keywords}
+                    passed.add(kw.get("functions") or (norm(c.args[0]) if norm(c.func) in registrars else None))
+        passed.discard(None)
+        if emit and passed == {table} and emitted_src == f"{table}.items()":
+            self.holds("K1", MOD, GEN, "single-definition-table", emit[0], f"all registrations go to `{table}` and exactly `{table}` is emitted")
+        else:
+            self.violated("K1", MOD, GEN, "single-definition-table", emit[0] if emit else gen,
+                          f"definitions are registered in {sorted(passed)} but `{emitted_src}` is emitted: name clashes across the tables are not seen by the collision test",
+                          witness="a species S1 with an initial assignment and a rule-defined parameter literally called init_S1: one helper silently replaces the other")
         # every place that needs a definition goes through a registrar and uses the returned name
         uses = 0
         for fname, fn in mod.functions.items():
@@ -164,6 +209,33 @@ class C11(Check):
                 self.violated("K2", MOD, GEN, "header-imports", hdr[0], f"templates use {sorted(need - imported)} which the emitted header does not import",
                               witness="exec of the generated source raises NameError")
         self.analysed["emitted_calls_checked"] = n_t
+        # ---- K5: memoisation on the translation path
+        n5 = 0
+        for rel in ("meta/source_tools.py", MOD, "meta/sympy_tools.py"):
+            m5 = self.prog.module(rel)
+            for tname, qual, key, node in memo_tables(m5):
+                n5 += 1
+                cls5 = classify_memo_key(key)
+                cons = f"memo {tname}@{qual}"
+                if cls5 == "ok":
+                    self.holds("K5", rel, qual, cons, node, f"module-level table `{tname}` keyed by `{key[:60]}`")
+                else:
+                    self.violated("K5", rel, qual, cons, node,
+                                  f"module-level table `{tname}` is keyed by `{key[:80]}`, which distinct functions can share: the second function is served the first one's entry",
+                                  witness="two inner functions `rate` returned by one factory (same module and qualified name, different bodies): both components are generated from the first body")
+            for qual, f5 in m5.functions.items():
+                memo = [d for d in f5.decorator_list if norm(d).split("(")[0] in MEMO_DECORATORS]
+                if memo:
+                    n5 += 1
+                    self.info("K5", rel, qual, f"memoised {qual}", f5, f"@{norm(memo[0])}: keyed by argument identity/equality; results must not be mutated by callers")
+        self.holds("K5", MOD, "<translation path>", "module-level-state", mod.tree, f"{n5} module-level memo table(s) / memoised function(s) on the translation path examined")
+        ent = self.prog.module("meta/source_tools.py").func("fn_to_sympy")
+        src_calls = [c for c in walk_no_nested(ent) if isinstance(c, ast.Call) and isinstance(c.func, ast.Name) and "ast" in c.func.id and "fn" in [norm(a) for a in c.args]]
+        if src_calls and norm(src_calls[0].func) == "get_fn_ast":
+            self.holds("K5", "meta/source_tools.py", "fn_to_sympy", "source-parsed-per-function-object", src_calls[0], "the function's source is looked up from the function object itself on every call")
+        else:
+            callee = src_calls[0].func.id if src_calls else "?"
+            self.info("K5", "meta/source_tools.py", "fn_to_sympy", "source-parsed-per-function-object", src_calls[0] if src_calls else ent, f"source obtained through `{callee}` (see memo entries above)")
         # ---- K3
         conv = mod.func("_fn_to_symbolic_repr")
         sc = Scope(conv)
@@ -200,6 +272,9 @@ class C11(Check):
         return [
             Variant("derived-keyed-by-name-only", MOD, GEN, "        fn_name = _register_fn(functions, fn.fn_name, k, fn.expr, fn.args)\n        derived_source", "        fn_name = fn.fn_name\n        functions[fn_name] = (fn.expr, fn.args)\n        derived_source", expect="K1|", quick=True),
             Variant("registrar-without-collision-test", MOD, "_register_fn", "    while (existing := functions.get(unique)) is not None and (not same(existing, (expr, args))):\n        unique = f'{unique}_{component}'\n", "", expect="K1|", quick=True),
+            Variant("same-accepts-equal-expressions", MOD, "_register_fn", "        if len(a[1]) != len(b[1]):\n            return False", "        if len(a[1]) != len(b[1]):\n            return False\n        if a[0] == b[0]:\n            return True", expect="K1|", quick=True),
+            Variant("separate-init-table", MOD, GEN, "variable_source.append(_codegen_variable(k, var, functions=functions))", "variable_source.append(_codegen_variable(k, var, functions=init_functions))", expect="K1|", quick=True),
+            Variant("parse-cache-by-qualname", "meta/source_tools.py", "", "def fn_to_sympy(", "_FN_DEF_CACHE: dict = {}\n\n\ndef _get_fn_ast_cached(fn):\n    key = (str(getattr(fn, '__module__', '')), str(getattr(fn, '__qualname__', fn)))\n    if (fn_def := _FN_DEF_CACHE.get(key)) is None:\n        fn_def = _FN_DEF_CACHE[key] = get_fn_ast(fn)\n    return fn_def\n\n\ndef fn_to_sympy(", expect="K5|", quick=True),
             Variant("reaction-uses-unregistered-name", MOD, GEN, "fn={rxn_fn_name}", "fn={fn.fn_name}", expect="K1|"),
             Variant("value-keyword-again", MOD, "_codegen_variable", "initial_value={value}, unit=", "value={value}, unit=", expect="K2|", quick=True),
             Variant("derived-keyword-typo", MOD, GEN, "fn={fn_name},\\n                args={fn.args},\\n            )')", "function={fn_name},\\n                args={fn.args},\\n            )')", expect="K2|"),
